@@ -136,7 +136,7 @@ SPECS = {
                 merged((("engine", "c14"), mon_engine.monitor_for("C14"))),
                 ENGINE_RULE + "; plus the exhaustive matrix paused x open x registered x every engine operation and shutdown from every subset of already-closed vAMMs (1-3 registered)",
                 r"(e\.pause|v\d+\.open|if\.)"),
-    "C08": Spec("C08", [Family("engine", shards(4, 25), shards(12, 150)), fam("faults", 10, 60)],
+    "C08": Spec("C08", [Family("engine", shards(4, 25) + shards(2, 25, prof="fluct") + shards(2, 25, prof="pcf"), shards(12, 150) + shards(4, 150, prof="fluct") + shards(4, 150, prof="pcf")), fam("faults", 10, 60)],
                 merged((("engine", "faults"), mon_engine.monitor_for("C08"))),
                 ENGINE_RULE + "; plus fault injection: for every engine operation of a history the operation is first attempted with a failure injected at sub-message 0, 1, 2, ... of its "
                 "message tree (vAMM swap, token transfers, insurance-fund withdrawal and its inner transfer) until the index passes the tree; raw storage of every contract and all balances "
